@@ -22,7 +22,7 @@ type Case struct {
 
 func genCase(maxOps int, crash bool) func(t *rapid.T) Case {
 	return func(t *rapid.T) Case {
-		kinds := []string{"appendB", "appendB", "appendF", "appendF", "rollback", "rollbackB", "reopen", "failB", "failF", "reappend", "ffailB", "ffailF"}
+		kinds := []string{"appendB", "appendB", "appendF", "appendF", "rollback", "rollbackB", "reopen", "failB", "failF", "reappend", "ffailB", "ffailF", "sfailB", "sfailF"}
 		if crash {
 			kinds = []string{"appendB", "appendB", "appendF", "appendF", "rollback", "rollbackB", "reappend", "reopen"}
 		}
@@ -32,12 +32,12 @@ func genCase(maxOps int, crash bool) func(t *rapid.T) Case {
 			case "ffailB", "ffailF":
 				o.N = rapid.IntRange(1, 12).Draw(t, "n")
 				o.Cut = rapid.IntRange(0, 1000).Draw(t, "cut")
-			case "appendB", "failB", "reappend":
+			case "appendB", "failB", "reappend", "sfailB":
 				o.N = rapid.IntRange(0, 12).Draw(t, "n")
 				if !crash && rapid.IntRange(0, 9).Draw(t, "big") == 0 {
 					o.N = rapid.IntRange(13, 50).Draw(t, "nbig")
 				}
-			case "appendF", "failF":
+			case "appendF", "failF", "sfailF":
 				o.N = rapid.IntRange(0, 15).Draw(t, "n")
 			case "rollback":
 				o.N = rapid.IntRange(0, 6).Draw(t, "n")
@@ -94,6 +94,9 @@ type prim struct {
 	update func(m *Model)
 	// expectErr: the call is expected to fail and leave everything as is.
 	expectErr bool
+	// either: the call may fail or succeed (a fault is armed that the code
+	// under test may never run into); whichever it reports must be true.
+	either bool
 }
 
 type runner struct {
@@ -116,6 +119,13 @@ func (r *runner) run(p prim) bool {
 	before := r.m
 	after := r.m.clone()
 	after.ctr, after.seed, after.Stash = r.m.ctr, r.m.seed, r.m.Stash
+	if p.either {
+		if err := p.do(); err == nil {
+			p.update(after)
+			r.m = after
+		}
+		return true
+	}
 	if !p.expectErr {
 		p.update(after)
 	}
@@ -184,11 +194,85 @@ func (r *runner) appendBlocksCut(hdrs []wire.BlockHeader, fail bool, name string
 	}})
 }
 
+func (r *runner) applySyncFault(op Op) bool {
+	m := r.m
+	tip := len(m.Blocks) - 1
+	ftip := len(m.Filters) - 1
+	if op.Kind == "sfailB" {
+		if op.N == 0 {
+			return true
+		}
+		var hdrs []wire.BlockHeader
+		tmp := m.clone()
+		tmp.ctr, tmp.seed = m.ctr, m.seed
+		for i := 0; i < op.N; i++ {
+			h := tmp.newHeader()
+			tmp.Blocks = append(tmp.Blocks, h)
+			hdrs = append(hdrs, h)
+		}
+		m.ctr = tmp.ctr
+		batch := r.blocksBatch(hdrs, len(m.Blocks))
+		r.faults++
+		r.mutated = true
+		return r.run(prim{name: op.Kind, either: true, do: func() error {
+			disarm, err := ArmSyncFault(r.e.BS)
+			if err != nil {
+				r.v.Harness = err.Error()
+				return nil
+			}
+			err = r.e.BS.WriteHeaders(batch...)
+			if disarm() {
+				r.v.Class("sync-fault-fired")
+			}
+			return err
+		}, update: func(m *Model) {
+			m.Blocks = append(m.Blocks, hdrs...)
+			for _, h := range hdrs {
+				delete(m.Gone, h.BlockHash())
+			}
+		}})
+	}
+	n := min(op.N, tip-ftip)
+	if n <= 0 {
+		return true
+	}
+	var fhs []chainhash.Hash
+	var batch []headerfs.FilterHeader
+	for i := 1; i <= n; i++ {
+		f := m.newFilter(ftip + i)
+		fhs = append(fhs, f)
+		fh := headerfs.FilterHeader{FilterHash: f}
+		if i == n {
+			fh.HeaderHash = m.Blocks[ftip+i].BlockHash()
+			fh.Height = uint32(ftip + i)
+		}
+		batch = append(batch, fh)
+	}
+	r.faults++
+	r.mutated = true
+	return r.run(prim{name: op.Kind, either: true, do: func() error {
+		disarm, err := ArmSyncFault(r.e.FS)
+		if err != nil {
+			r.v.Harness = err.Error()
+			return nil
+		}
+		err = r.e.FS.WriteHeaders(batch...)
+		if disarm() {
+			r.v.Class("sync-fault-fired")
+		}
+		return err
+	}, update: func(m *Model) { m.Filters = append(m.Filters, fhs...) }})
+}
+
 func (r *runner) apply(op Op) bool {
 	m := r.m
 	tip := len(m.Blocks) - 1
 	ftip := len(m.Filters) - 1
 	switch op.Kind {
+	case "sfailB", "sfailF":
+		// an append while every Sync of the flat file fails: whether the
+		// store runs into it or not, what it reports must be true
+		return r.applySyncFault(op)
 	case "appendB", "failB", "ffailB":
 		var hdrs []wire.BlockHeader
 		tmp := m.clone()
